@@ -13,7 +13,7 @@ from . import common, pure, tlc
 
 class PureSpec:
     def __init__(self, prop, module, trace_module, driver, cfg, sample, variants, assumptions, rule,
-                 keep='pc = "done"', spec_files=None, drift=None, invariants_note="", extra_cases=None, in_field="in"):
+                 keep='pc = "done"', spec_files=None, drift=None, invariants_note="", extra_cases=None, in_field="in", always=None):
         self.prop = prop
         self.module = module
         self.trace_module = trace_module
@@ -28,7 +28,8 @@ class PureSpec:
         self.drift = drift
         self.invariants_note = invariants_note
         self.extra_cases = extra_cases
-        self.in_field = in_field        # which state variable is handed to the driver  # fn(tier) -> list of (case_in, variant): cases beyond the dumped graph (real sizes)
+        self.in_field = in_field        # which state variable is handed to the driver
+        self.always = always            # dump blocks that are never sampled away  # fn(tier) -> list of (case_in, variant): cases beyond the dumped graph (real sizes)
 
 
 def _spec_key(files):
@@ -73,7 +74,7 @@ def run_pure(spec: PureSpec, tier: str, only_cases=None, evidence_suffix="", own
     prop = spec.prop
     model = model_stage(spec, tier)
     if only_cases is None:
-        states, total = pure.select_states(model["dump"], spec.sample[tier], prop, keep=lambda b: spec.keep in b)
+        states, total = pure.select_states(model["dump"], spec.sample[tier], prop, keep=lambda b: spec.keep in b, always=spec.always)
         leads = Counter()
         for s in states:
             for c in s.get("lead", []):
